@@ -56,6 +56,8 @@ func streamPaths(s *stream.Stream, c *streamCtx) error {
 		{[]string{"ignoredir", "pkg/l0/ignored_file.go", ".git"}, false},
 		{[]string{"pkg/l0", "sub"}, true},
 		{[]string{}, true},
+		// ignore entries in non-canonical spelling (trailing slash, ./ prefix, doubled separator)
+		{[]string{"ignoredir/", "./pkg/l0", "nested//sub", "./pkg/l0/ignored_file.go"}, false},
 	}
 	depth := 2
 	if c.thorough() {
@@ -165,7 +167,23 @@ func streamPaths(s *stream.Stream, c *streamCtx) error {
 		}
 		os.WriteFile(filepath.Join(troot, "go.mod"), []byte("module example.com/m\n"), 0644)
 		cnt := build(troot, "", 0)
+		// every third tree also carries the ignored file, an ignored directory and their look-alikes
+		if t%3 == 0 {
+			for _, d := range []string{"zpkg/l0", "zignoredir", "zignoredirx"} {
+				os.MkdirAll(filepath.Join(troot, d), 0755)
+			}
+			os.WriteFile(filepath.Join(troot, "zpkg/l0/ignored_file.go"), []byte("package p\n"), 0644)
+			os.WriteFile(filepath.Join(troot, "zpkg/l0/kept.go"), []byte("package p\n"), 0644)
+			os.WriteFile(filepath.Join(troot, "zignoredir/i.go"), []byte("package p\n"), 0644)
+			os.WriteFile(filepath.Join(troot, "zignoredirx/i.go"), []byte("package p\n"), 0644)
+			enc = append(enc, "D", "zignoredir", "1", "F", "i.go", "D", "zignoredirx", "1", "F", "i.go",
+				"D", "zpkg", "1", "D", "l0", "2", "F", "ignored_file.go", "F", "kept.go")
+			cnt += 3
+		}
 		pc := cfgs[c.rng.Intn(len(cfgs))]
+		if t%3 == 0 {
+			pc = pathCfg{[]string{"zignoredir", "zpkg/l0/ignored_file.go", "vendor"}, c.rng.Intn(2) == 0}
+		}
 		os.Chdir(troot)
 		cfg := &config.Config{Ignores: pc.ignores, SkipNestedModules: pc.skip, DiffPrecision: 2, AppVersion: "t", AppName: "a"}
 		if err := cfg.Validate(); err != nil {
